@@ -9,3 +9,10 @@ mod util;
 mod h_bytes;
 #[cfg(kani)]
 mod h_slices;
+#[cfg(kani)]
+mod h_values;
+#[cfg(kani)]
+mod h_share;
+#[cfg(kani)]
+mod h_index;
+// h_random.rs (C15 probes) is kept in the tree but not compiled: see DESIGN.md §6 C15
